@@ -109,7 +109,7 @@ def classify_forward(fn, t):
 
 
 class PathSummary:
-    __slots__ = ('conds', 'fwd', 'calls', 'end', 'ret', 'path', 'throws', 'throw_at_fwd', 'throw_at_call', 'unwinds', 'writes', 'ret_term', 'fwd_ids', 'cond_terms')
+    __slots__ = ('conds', 'fwd', 'calls', 'end', 'ret', 'path', 'throws', 'throw_at_fwd', 'throw_at_call', 'unwinds', 'writes', 'ret_term', 'fwd_ids', 'cond_terms', 'fields')
 
     def __init__(self):
         self.conds = []     # (canonical cond, taken)
@@ -148,7 +148,7 @@ def const_truth(t):
 
 
 def summarize(fn, exceptional=False, extra_forward=None, roles=None, inline=None, limit=3000, db=None,
-              inline_pred=None, max_depth=3):
+              inline_pred=None, max_depth=3, no_forward=False):
     """path summaries of fn.
     extra_forward(fn, term) may classify additional calls as forwarding.
     With db and inline_pred(fn, callee_fn, term): calls to helper functions are inlined (their paths are
@@ -163,7 +163,7 @@ def summarize(fn, exceptional=False, extra_forward=None, roles=None, inline=None
         paths = sym.enum_paths(f, limit=limit, exceptional=exceptional and depth == 0)
         for p in paths:
             conds, fwds, calls, fwd_ids, callvals, meta = state
-            st = (list(conds), list(fwds), list(calls), dict(fwd_ids), dict(callvals), {k: (list(v) if isinstance(v, list) else v) for k, v in meta.items()})
+            st = (list(conds), list(fwds), list(calls), dict(fwd_ids), dict(callvals), {k: (list(v) if isinstance(v, list) else dict(v) if isinstance(v, dict) else v) for k, v in meta.items()})
             step_path(f, p, 0, None, init_vals, depth, st, cont)
 
     def make_env(f, init_vals, st):
@@ -178,7 +178,8 @@ def summarize(fn, exceptional=False, extra_forward=None, roles=None, inline=None
             if inline is not None:
                 return inline(t)
             return None
-        env = sym.Env(f, roles, inl)
+        env = sym.Env(f, roles, inl, fields=st[5].setdefault('fields', {}))
+        env.db = db
         env.vals.update(init_vals)
         return env
 
@@ -197,7 +198,7 @@ def summarize(fn, exceptional=False, extra_forward=None, roles=None, inline=None
                     callee = db.fns.get(t.get('key')) if db is not None else None
                     do_inline = (callee is not None and depth < max_depth and inline_pred is not None
                                  and inline_pred(f, callee, t) and callee.key != f.key)
-                    c = None if do_inline else (classify_forward(f, t) or (extra_forward(f, t) if extra_forward else None))
+                    c = None if (do_inline or no_forward) else (classify_forward(f, t) or (extra_forward(f, t) if extra_forward else None))
                     if c:
                         kind, target, args, via = c
                         fc = FwdCall(kind, env.c(target), {r: env.c(a) for r, a in args.items()}, t, e, via)
@@ -211,14 +212,13 @@ def summarize(fn, exceptional=False, extra_forward=None, roles=None, inline=None
                             for prm, a in zip(callee.params, args):
                                 binds[prm['did']] = env.subst(a)
                             if 'recv' in t:
-                                binds['__this__'] = env.subst(t['recv'])
+                                binds['__this__'] = env.subst_path(t['recv'])
                             saved_env = env
 
                             def after(st2, rterm, f=f, p=p, idx=idx, saved_env=saved_env, t=t, depth=depth, cont=cont, init_vals=init_vals):
                                 st2[4][(f.key, t['id'])] = rterm if rterm is not None else {'k': 'lit', 'v': 0, 'void': True}
                                 env2 = make_env(f, {}, st2)
                                 env2.vals = dict(saved_env.vals)
-                                env2.fields = dict(saved_env.fields)
                                 step_path(f, p, idx, env2, init_vals, depth, st2, cont)
                             run_fn(callee, binds, depth + 1, (conds, fwds, calls, fwd_ids, callvals, meta), after)
                             return
@@ -232,7 +232,7 @@ def summarize(fn, exceptional=False, extra_forward=None, roles=None, inline=None
                     meta.setdefault('writes', []).append((tgt, env.c(e['e']), e, len(fwds), len(calls)))
                 if e['ev'] in ('assign', 'incdec') and depth == 0:
                     rhs = env.c(e['rhs']) if 'rhs' in e else e['op']
-                    meta.setdefault('writes', []).append((env.c(e['lhs']), rhs, e, len(fwds), len(calls)))
+                    meta.setdefault('writes', []).append((sym.canon(sym.strip_casts(env.subst_lvalue(e['lhs'])), roles) if sym.strip_casts(e['lhs']).get('k') == 'member' else env.lvalue_key(e['lhs']) if sym.strip_casts(e['lhs']).get('k') not in ('local', 'param') else env.c(e['lhs']), rhs, e, len(fwds), len(calls)))
                 env.step(it)
             elif it[0] == 'br':
                 cond, taken, assume = it[1], it[2], it[3]
@@ -294,6 +294,7 @@ def summarize(fn, exceptional=False, extra_forward=None, roles=None, inline=None
         s.ret = sym.canon(ret_term, roles) if ret_term is not None else None
         s.ret_term = ret_term
         s.cond_terms = meta.get('cond_terms', [])
+        s.fields = meta.get('fields', {})
         s.fwd_ids = fwd_ids
         s.path = p
         s.throws = throws
